@@ -9,6 +9,7 @@ CONSTANTS
   FinishFull = TRUE
   With256 = FALSE
   Targets = {}
+  SharedBuf = FALSE
 INIT Init
 NEXT Next
 VIEW view
@@ -16,4 +17,5 @@ INVARIANT EncodeDecode
 INVARIANT LocaInv
 INVARIANT RoundTrip
 INVARIANT FixInv
+INVARIANT HistInv
 CHECK_DEADLOCK FALSE
